@@ -5,6 +5,7 @@ pub mod engine;
 pub mod hist;
 pub mod known;
 pub mod props;
+pub mod qmodel;
 pub mod rich;
 pub mod simdir;
 pub mod util;
